@@ -68,12 +68,24 @@ def join_state(a, b):
     return out
 
 
-def widen_state(old, new):
+def widen_state(old, new, thresholds=()):
+    """widening with thresholds: an unstable bound jumps to the next constant of the function"""
     out = State()
     for k in new:
         if k in old:
-            lo = old[k][0] if new[k][0] >= old[k][0] else -INF
-            hi = old[k][1] if new[k][1] <= old[k][1] else INF
+            lo, hi = old[k]
+            if new[k][0] < old[k][0]:
+                lo = -INF
+                for t in reversed(thresholds):
+                    if t <= new[k][0]:
+                        lo = t
+                        break
+            if new[k][1] > old[k][1]:
+                hi = INF
+                for t in thresholds:
+                    if t >= new[k][1]:
+                        hi = t
+                        break
             if (lo, hi) != TOP:
                 out[k] = (lo, hi)
     return out
@@ -99,6 +111,18 @@ class Intervals:
                 if t["k"] == "Ref":
                     self.addr_taken.add(t["d"])
         self.byref = self._byref_vars()
+        th = set([0, 1, -1])
+        for n in fn.walk():
+            v = n.get("val")
+            if isinstance(v, int) and -(2 ** 31) < v < 2 ** 31:
+                th.update((v - 1, v, v + 1))
+            t = n.get("t")
+            if isinstance(t, int):
+                from ir import array_len
+                al = array_len(fn.tyname(t))
+                if al:
+                    th.update((al - 1, al, al + 1))
+        self.thresholds = sorted(th)
 
     def _byref_vars(self):
         """locals passed to a non-const reference parameter (may be modified by the callee)"""
@@ -127,6 +151,8 @@ class Intervals:
 
     # ---- expression evaluation ----------------------------------------------
     def eval(self, n, st):
+        if n is not None and "val" in n and n["k"] in ("Cast", "Binary", "Unary", "SizeOf", "Cond"):
+            return (n["val"], n["val"])      # folded by clang's constant evaluator
         n = strip(n)
         if n is None:
             return TOP
@@ -382,7 +408,7 @@ class Intervals:
                     new = join_state(old, out)
                     visits[s] = visits.get(s, 0) + 1
                     if visits[s] > 3:
-                        new = widen_state(old, new)
+                        new = widen_state(old, new, self.thresholds if visits[s] < 40 else ())
                 if old is None or new != old:
                     block_in[s] = new
                     if s not in inq:
